@@ -115,6 +115,24 @@ Proof.
 Qed.
 Print Assumptions C46_v3_always_encodes.
 
+(* a consistency level configured on the profile (or assigned to the legacy session) is the one in effect for statements
+   without their own, on ordinary and on DBaaS clusters alike; only a level nobody chose follows the cluster kind *)
+Theorem C46_configured_level_in_effect : forall dbaas m k st pr se t pg pv f pcl scl,
+  s_cl st = None ->
+  effective m k st (mkProf (configured_cl dbaas pcl) (p_serial pr) (p_retry pr) (p_timeout pr) (p_rowf pr) (p_lbp pr) (p_spec pr))
+            (mkSess (configured_cl dbaas scl) (d_serial se) (d_retry se) (d_timeout se) (d_rowf se) (d_lbp se) (d_fetch se)
+                    (d_use_ts se) (d_ts se) (d_keyspace se)) t pg pv = Some f ->
+  (forall v, m = Profiles -> pcl = Some v -> m_cl f = v)
+  /\ (forall v, m = Legacy -> scl = Some v -> m_cl f = v)
+  /\ (m = Profiles -> pcl = None -> m_cl f = if dbaas then 6 else 10)
+  /\ (m = Legacy -> scl = None -> m_cl f = if dbaas then 6 else 10).
+Proof.
+  intros dbaas m k st pr se t pg pv f pcl scl Hs H.
+  destruct (effective_common _ _ _ _ _ _ _ _ _ H) as (A & _). unfold eff_cl in A. rewrite Hs in A.
+  repeat split; intros; subst; cbn in A; exact A.
+Qed.
+Print Assumptions C46_configured_level_in_effect.
+
 Example C46_nonvacuous :
   let st := mkStmt (Some 6) None None (FSet (Some 50)) (Some 9) true in
   let pr := mkProf 10 (Some 8) 20 (Some 30) 40 41 42 in
